@@ -1942,6 +1942,9 @@ class Cluster(object):
                 with host.lock:
                     host.set_up()
                     host._currently_handling_node_up = False
+                # no pool to wait for (no session wants this host): the transition is complete
+                for listener in self.listeners:
+                    listener.on_up(host)
 
         # for testing purposes
         return futures
